@@ -72,3 +72,58 @@ def angdiff(a, b):
 def positions(lead):
     import itertools
     return list(itertools.product(*[range(k) for _, k in lead])) or [()]
+
+
+# ---- boolean helpers that work for python bools and SymBool alike ---------------------
+import z3 as _z3
+from vt.symreal import sym as _S
+
+
+def _b(x):
+    if isinstance(x, SymBool):
+        return x.e
+    if isinstance(x, _z3.BoolRef):
+        return x
+    return _z3.BoolVal(bool(x))
+
+
+def _anysym(xs):
+    return any(isinstance(x, (SymBool, _z3.BoolRef)) for x in xs)
+
+
+def AND(*xs):
+    xs = [x for x in xs]
+    if not _anysym(xs):
+        return all(bool(x) for x in xs)
+    return SymBool(_z3.And(*[_b(x) for x in xs])) if xs else True
+
+
+def OR(*xs):
+    xs = [x for x in xs]
+    if not _anysym(xs):
+        return any(bool(x) for x in xs)
+    return SymBool(_z3.Or(*[_b(x) for x in xs])) if xs else False
+
+
+def NOT(x):
+    if isinstance(x, (SymBool, _z3.BoolRef)):
+        return SymBool(_z3.Not(_b(x)))
+    return not bool(x)
+
+
+def IMPLIES(a, b):
+    return OR(NOT(a), b)
+
+
+def near(env, a, b, rel=1e-9, abs_=1e-12, ctol=2e-5, catol=1e-9):
+    """|a-b| <= abs + rel*|b| as a (Sym)bool; NaN == NaN."""
+    an, bn = isnan(a), isnan(b)
+    if an or bn:
+        return an and bn
+    if isinstance(a, (Sym,)) or isinstance(b, (Sym,)):
+        az, bz = _S.toz(a), _S.toz(b)
+        d = az - bz
+        tol = _S.toz(abs_) + _S.toz(rel) * _z3.If(bz >= 0, bz, -bz)
+        return SymBool(_z3.And(d <= tol, -d <= tol))
+    a, b = float(a), float(b)
+    return abs(a - b) <= catol + ctol * abs(b)
